@@ -72,7 +72,7 @@ def gen_design(rng, n_nodes, kinds, max_inputs=8, maxw=70, hier_depth=0, feedbac
         emit(k.name, params, ins, ows)
     # option siblings: a second instance of a block on the same input wires, with the same port widths, that differs only in
     # a constructor option / constant (the configuration in which a module name that ignores the option does harm)
-    if nodes and rng.random() < 0.3:
+    if nodes and rng.random() < 0.4:
         names = {k.name for k in kinds} | {k.name for k in (seq_kinds or [])}
         cands = [n for n in nodes if n['kind'] in OPTION_VARIANTS and n['kind'] in names and not n.get('guard')]
         for n in rng.sample(cands, min(len(cands), 2)):
@@ -123,14 +123,22 @@ def gen_design(rng, n_nodes, kinds, max_inputs=8, maxw=70, hier_depth=0, feedbac
     return {'inputs': pool.inputs, 'nodes': nodes, 'outputs': outs, 'order': [n['id'] for n in nodes]}
 
 
+def _flipbit(rng, v, w):
+    """the same value with one bit flipped - anywhere, also beyond bit 31 (values that agree in their low 32 bits)"""
+    ks = [k for k in (0, 0, 1, 7, 8, 15, 16, 31, 32, 33, 63, 64, w - 1) if 0 <= k < w]
+    if w > 32 and rng.random() < 0.5:
+        return v ^ (1 << rng.randrange(32, w))
+    return v ^ (1 << rng.choice(ks + [rng.randrange(w)]))
+
+
 OPTION_VARIANTS = {
     'ShiftRight': lambda rng, p, ow: dict(p, mode={'logical': 'arith', 'arith': 'logical'}[p['mode']]) if p.get('mode') in ('logical', 'arith') else None,
     'ShiftLeftConstant': lambda rng, p, ow: dict(p, n=p['n'] + 1),
     'ShiftRightConstant': lambda rng, p, ow: dict(p, n=p['n'] + 1),
-    'Constant': lambda rng, p, ow: dict(p, value=(p['value'] ^ 1)),
+    'Constant': lambda rng, p, ow: dict(p, value=_flipbit(rng, p['value'], ow[0])),
     'EqualConstant': lambda rng, p, ow: dict(p, v=(p['v'] ^ 1)),
     'NotEqualConstant': lambda rng, p, ow: dict(p, v=(p['v'] ^ 1)),
-    'Reg': lambda rng, p, ow: dict(p, rv=((p['rv'] ^ 1) if p['rv'] >= 0 else p['rv'] - 1)),
+    'Reg': lambda rng, p, ow: dict(p, rv=(_flipbit(rng, p['rv'], ow[0]) if p['rv'] >= 0 else p['rv'] - 1)),
     'ParamScaler': lambda rng, p, ow: dict(p, step=p['step'] + 1),
     'Sequence': lambda rng, p, ow: dict(p, values=list(reversed(p['values'])) + [p['values'][0] ^ 1]),
 }
@@ -726,6 +734,25 @@ def bulk_design(n, seed, w=8):
     rng.shuffle(order)
     outs = ['n%d.0' % j for j in sorted(rng.sample(range(n), min(8, n)))]
     return {'inputs': inputs, 'nodes': nodes, 'outputs': outs, 'order': list(range(n))}, order
+
+
+def bulk_modules(n, seed):
+    """hundreds of instances of library blocks that get a module of their own per instance (counters, dividers, delay
+    lines, ...) with seeded parameters, all on the same few input wires: a design with far more emitted modules than
+    ordinary examples have (name tables, suffix schemes, created-structures lists)"""
+    import random as _r
+    rng = _r.Random(seed)
+    pool = Pool(rng, max_inputs=3, maxw=8)
+    pool.new_input(1)
+    pool.new_input(4)
+    nodes = []
+    kinds = [KINDS[k] for k in ('ModuloCounter', 'ModuloCounter', 'ClockDivider', 'DelayLine', 'Counter', 'EdgeDetector', 'TReg')]
+    for j in range(n):
+        k = rng.choice(kinds)
+        params, ins, ows = k.plan(rng, pool)
+        nodes.append({'id': j, 'kind': k.name, 'p': params, 'ins': list(ins), 'ow': list(ows), 'grp': []})
+    outs = ['n%d.%d' % (nd['id'], k) for nd in nodes for k in range(len(nd['ow']))]
+    return {'inputs': pool.inputs, 'nodes': nodes, 'outputs': outs, 'order': list(range(n))}
 
 
 def bulk_ring(n, w, seed):
